@@ -70,6 +70,8 @@ func cleanSchemaText(s string) bool { return !strings.Contains(s, "$") }
 
 func runC06(run *Run, replay string) {
 	run.Res.Rule = "(1) generated constraints of every kind and nesting: Constraint.EmptyCompletionData with and without required-field prefilling, two starting placeholders and nesting levels, compared with the model; its snippet must use consecutive tab stops from the starting placeholder and its plain text none; (2) CompletionAtPos (prefill on and off; candidate limit 100 and lowered to 3) on generated scenarios at token boundaries: every candidate's edit range is in the requested file, well formed, starts at or before the cursor and reaches it up to blanks, the plain text has no tab-stop syntax, the snippet's stops are consecutive and used once, the list never exceeds the limit and a list marked complete is not a truncation; distinct non-trivial = distinct (file text, offset, prefill) with candidates"
+	hookLimitOracle(run)
+	hookCandsCases(run)
 	// ---- (1) EmptyCompletionData
 	r := rand.New(rand.NewSource(subSeed(run.Res.Seed, 606060)))
 	nc := 400
@@ -288,6 +290,23 @@ func hookedAttributesOracle(run *Run, sc *Scenario, tbl map[int]hcl.Pos, loc map
 			}
 			cands := res.Val.(lang.Candidates)
 			q := Query{Name: "CompletionAtPos", Pos: &pos, File: sc.File}
+			// the same attribute asked right behind its equals sign (blanks in front of the value)
+			if eq := a.EqualsRange.End.Byte; eq < a.Expr.Range().Start.Byte {
+				if pe, ok := tbl[eq]; ok {
+					re := safeCall("CompletionAtPos", func() (interface{}, error) { return d.CompletionAtPos(ctx, sc.File, pe) })
+					run.Res.Evaluations++
+					if re.Panic == "" && re.Err == nil {
+						for _, c := range re.Val.(lang.Candidates).List {
+							if c.TextEdit.Range.Start.Byte > pe.Byte || c.TextEdit.Range.End.Byte < c.TextEdit.Range.Start.Byte {
+								run.Violate(Violation{Key: fmt.Sprintf("C06/edit-starts-after-cursor/%d", c.Kind), Rule: "the edit range starts at or before the cursor", Func: "CompletionAtPos",
+									Detail: fmt.Sprintf("cursor %d (right behind the equals sign of %q), candidate %q, range %v", pe.Byte, name, c.Label, c.TextEdit.Range),
+									Replay: locWith(loc, Query{Name: "CompletionAtPos", Pos: &pe, File: sc.File})})
+								break
+							}
+						}
+					}
+				}
+			}
 			if cands.IsComplete {
 				run.Violate(Violation{Key: "C06/complete-flag-although-hooks-are-attached", Rule: "a list is marked complete only when no matching candidate was left out and no hook may add more",
 					Func: "attrValueCompletionAtPos", Detail: fmt.Sprintf("attribute %q has %d completion hook(s), the list of %d candidate(s) is marked complete", name, len(as.CompletionHooks), len(cands.List)), Replay: locWith(loc, q)})
@@ -314,4 +333,49 @@ func hookedAttributesOracle(run *Run, sc *Scenario, tbl map[int]hcl.Pos, loc map
 		}
 	}
 	walk(body, sc.Main.Schema)
+}
+
+// hookLimitOracle: candidates of completion hooks and the expression's own candidates together never exceed the limit
+func hookLimitOracle(run *Run) {
+	ctx := context.Background()
+	for _, tc := range []struct{ hooks, refs int }{{30, 30}, {60, 60}, {1, 100}, {99, 100}, {60, 45}, {1, 99}} {
+		var vars strings.Builder
+		for i := 0; i < tc.refs; i++ {
+			fmt.Fprintf(&vars, "variable \"v%03d\" {\n  type = string\n}\n", i)
+		}
+		base := tfSchema()
+		for _, typed := range []string{"", "var", "var.v0"} {
+			sch := &schema.BodySchema{
+				Blocks: map[string]*schema.BlockSchema{"variable": base.Blocks["variable"]},
+				Attributes: map[string]*schema.AttributeSchema{"attr": {IsOptional: true, Constraint: schema.AnyExpression{OfType: cty.String},
+					CompletionHooks: lang.CompletionHooks{{Name: fmt.Sprintf("many%d", tc.hooks)}}}},
+			}
+			src := "attr = " + typed + "\n"
+			w := newWorld()
+			pd := w.AddPath("root", sch, map[string]string{"main.tf": src, "vars.tf": vars.String()}, nil)
+			w.Collect()
+			d, err := w.Dec.Path(pd.Path)
+			if err != nil {
+				continue
+			}
+			pos := lcTable([]byte(src))[len("attr = "+typed)]
+			res := safeCall("CompletionAtPos", func() (interface{}, error) { return d.CompletionAtPos(ctx, "main.tf", pos) })
+			run.Res.Evaluations++
+			if res.Panic != "" || res.Err != nil {
+				continue
+			}
+			cands := res.Val.(lang.Candidates)
+			run.Count("hook_limit_queries")
+			if len(cands.List) > 100 {
+				run.Violate(Violation{Key: "C06/over-limit/hooks-plus-expression", Rule: "a candidate list never exceeds the limit", Func: "attrValueCompletionAtPos",
+					Detail: fmt.Sprintf("%d candidates (%d from the hook, %d declarations) for %q", len(cands.List), tc.hooks, tc.refs, strings.TrimSpace(src)),
+					Replay: map[string]interface{}{"src": src, "hook_candidates": tc.hooks, "declarations": tc.refs}})
+			}
+			if cands.IsComplete {
+				run.Violate(Violation{Key: "C06/complete-flag-although-hooks-are-attached", Rule: "a list is marked complete only when no matching candidate was left out and no hook may add more",
+					Func: "attrValueCompletionAtPos", Detail: fmt.Sprintf("%d candidates marked complete with a hook attached", len(cands.List)),
+					Replay: map[string]interface{}{"src": src, "hook_candidates": tc.hooks, "declarations": tc.refs}})
+			}
+		}
+	}
 }
